@@ -1772,14 +1772,57 @@ def join_chains(text):
     return "".join(out)
 
 
+def fold_literals(text):
+    """`32 - 1`, `16 + 5`, `8 * 4` between decimal literals -> the number, where that cannot change the meaning: the left literal
+    starts an operand position (after `( [ , = < > { ; : ..`, `return`, `=>`), `+ -` only when no `* / %` follows, nothing
+    method-like follows.  (After constant propagation `PADDING.len() - 1` is `32 - 1`; a reader that wants the literal must
+    see 31.)"""
+    spans = literal_spans(text)
+
+    def inside(pos):
+        for a, b in spans:
+            if a <= pos < b:
+                return True
+            if a > pos:
+                return False
+        return False
+    rx = re.compile(r"(?:(?<=[(\[,=<>{;:])|(?<=\.\.)|(?<==>)|(?<=\breturn))(\s*)(\d+)\s*([-+*])\s*(\d+)(?![\w.]|\s*[*/%]|\s+as\b)")
+    for _ in range(8):
+        changed = False
+        out, last = [], 0
+        for m in rx.finditer(text):
+            if inside(m.start(2)) or m.start() < last:
+                continue
+            a, op, b = int(m.group(2)), m.group(3), int(m.group(4))
+            if op == "-" and a < b:
+                continue
+            if op == "*" and re.match(r"\s*[-+]", text[m.end():]) is None and False:
+                continue
+            v = a + b if op == "+" else a - b if op == "-" else a * b
+            out.append(text[last:m.start()])
+            out.append(m.group(1) + str(v))
+            last = m.end()
+            changed = True
+        out.append(text[last:])
+        text = "".join(out)
+        if not changed:
+            break
+        spans = literal_spans(text)
+    return text
+
+
 _SOURCE_CACHE = {}
 
 
-def source(rel):
-    """the text the extractors read: comments stripped, named constants propagated"""
-    if rel not in _SOURCE_CACHE:
-        _SOURCE_CACHE[rel] = propagate_consts(join_chains(strip_comments(read(rel))))
-    return _SOURCE_CACHE[rel]
+def source(rel, fold=True):
+    """the text the extractors read: comments stripped, method chains / argument lists joined, named constants propagated and
+    (fold=True) arithmetic between literals folded.  fold=False for the few readers that want a formula's own constants"""
+    key = (rel, fold)
+    if key not in _SOURCE_CACHE:
+        base = propagate_consts(join_chains(strip_comments(read(rel))))
+        _SOURCE_CACHE[(rel, False)] = base
+        _SOURCE_CACHE[(rel, True)] = fold_literals(base)
+    return _SOURCE_CACHE[key]
 
 
 class Gen:
